@@ -6,6 +6,8 @@ is the independent reference.  Proved here:
  * `word_index`       the model's flattened memory index `(row·ncols | col) >> log2(B)` is
                       `row·(ncols/B) + col/B`: rows and bursts never alias (for every geometry)
  * `column_decode`    the model's column (after the A10 fix) is the reference's JEDEC column
+ * `read_latency_exact` the read strobe and data shown in cycle t + read_latency are exactly what the commands of cycle t
+                      fetched (generic delay-line lemma `pipe_delay`), for every trace and configuration
  * `bank_refines`     under legal commands (at most one command per bank per cycle, ACT only on a bank the
                       reference holds precharged) "reference bank open on row r ⇒ model bank active on row r"
                       is an inductive invariant — including after auto-precharge, which the model ignores
@@ -126,6 +128,105 @@ def simphy_equals_reference_full : Prop :=
       { csN := p.csN, rasN := p.rasN, casN := p.casN, weN := p.weN, bank := p.bank, address := p.address, wrdata := p.wrdata,
         wrdataMask := p.wrdataMask }) = true →
     agree sc rc (SimPhy.init sc fun _ => #[]) (DramData.init fun _ => 0) tr = true
+
+section latency
+open SimPhy
+/-! ### a delay line of length L -/
+def pipeStep {α : Type} (L : Nat) (d : α) (p : List α) (x : α) : List α × α := ((x :: p).take L, (x :: p).getD L d)
+
+def pipeRun {α : Type} (L : Nat) (d : α) : List α → List α → List α
+  | _, [] => []
+  | p, x :: xs => (pipeStep L d p x).2 :: pipeRun L d (pipeStep L d p x).1 xs
+
+theorem take_cons_take {α : Type} (L : Nat) (x : α) (l : List α) : (x :: l.take L).take L = (x :: l).take L := by
+  cases L with
+  | zero => rfl
+  | succ L => simp [List.take_take]
+
+theorem getD_cons_take {α : Type} (L : Nat) (d x : α) (l : List α) : (x :: l.take L).getD L d = (x :: l).getD L d := by
+  cases L with
+  | zero => rfl
+  | succ L =>
+    simp only [List.getD_cons_succ]
+    simp [List.getD_eq_getElem?_getD, List.getElem?_take]
+
+theorem pipeRun_eq {α : Type} (L : Nat) (d : α) (p : List α) (xs : List α) :
+    ∀ acc : List α, pipeRun L d ((acc ++ p).take L) xs =
+      (List.range xs.length).map (fun j => (((xs.take (j + 1)).reverse ++ acc ++ p)).getD L d) := by
+  induction xs with
+  | nil => intro acc; rfl
+  | cons x xs ih =>
+    intro acc
+    simp only [pipeRun, pipeStep, List.length_cons, List.range_succ_eq_map, List.map_cons, List.map_map]
+    rw [take_cons_take, getD_cons_take]
+    have := ih (x :: acc)
+    simp only [List.cons_append] at this
+    rw [this]
+    congr 1
+    · apply List.map_congr_left
+      intro j _
+      simp [List.take_succ_cons, List.reverse_cons, List.append_assoc]
+
+/-- **what leaves a delay line of length `L` at step `t + L` is what entered at step `t`** -/
+theorem pipe_delay {α : Type} (L : Nat) (d : α) (xs p : List α) (hp : p.length = L) (t : Nat) (ht : t + L < xs.length) :
+    (pipeRun L d p xs).getD (t + L) d = xs.getD t d := by
+  have h := pipeRun_eq L d p xs []
+  simp only [List.nil_append] at h
+  rw [List.take_of_length_le (by omega)] at h
+  rw [h]
+  rw [List.getD_eq_getElem?_getD, List.getElem?_map, List.getElem?_range (by omega)]
+  simp only [Option.map_some, Option.getD_some, List.append_nil]
+  rw [List.getD_eq_getElem?_getD, List.getElem?_append_left (by simp; omega)]
+  rw [List.getElem?_reverse (by simp; omega)]
+  simp only [List.length_take]
+  have e : min (t + L + 1) xs.length - 1 - L = t := by omega
+  rw [e, List.getElem?_take_of_lt (by omega), List.getD_eq_getElem?_getD]
+
+/-! ### the model's read path -/
+/-- the read data a cycle's commands fetch: what the model would output in that very cycle with a read latency of 0 -/
+def readNow (c : Cfg) (s : State) (ph : List Phase) : Bool × Nat :=
+  let o := (step { c with readLatency := 0 } { s with rpipe := [] } ph).2
+  (o.rddataValid, o.rddata)
+
+theorem step_read (c : Cfg) (s : State) (ph : List Phase) :
+    (step c s ph).1.rpipe = (pipeStep c.readLatency (false, 0) s.rpipe (readNow c s ph)).1 ∧
+    ((step c s ph).2.rddataValid, (step c s ph).2.rddata) = (pipeStep c.readLatency (false, 0) s.rpipe (readNow c s ph)).2 ∧
+    (step c s ph).1.banks = (step { c with readLatency := 0 } { s with rpipe := [] } ph).1.banks := by
+  refine ⟨rfl, rfl, rfl⟩
+
+def outs (c : Cfg) : State → List (List Phase) → List (Bool × Nat)
+  | _, [] => []
+  | s, ph :: rest => ((step c s ph).2.rddataValid, (step c s ph).2.rddata) :: outs c (step c s ph).1 rest
+
+def fetched (c : Cfg) : State → List (List Phase) → List (Bool × Nat)
+  | _, [] => []
+  | s, ph :: rest => readNow c s ph :: fetched c (step c s ph).1 rest
+
+theorem outs_eq_pipe (c : Cfg) (tr : List (List Phase)) :
+    ∀ s : State, outs c s tr = pipeRun c.readLatency (false, 0) s.rpipe (fetched c s tr) := by
+  induction tr with
+  | nil => intro s; rfl
+  | cons ph rest ih =>
+    intro s
+    obtain ⟨h1, h2, _⟩ := step_read c s ph
+    simp only [outs, fetched, pipeRun]
+    rw [ih, h1, h2]
+
+theorem fetched_length (c : Cfg) (tr : List (List Phase)) : ∀ s, (fetched c s tr).length = tr.length := by
+  induction tr with
+  | nil => intro s; rfl
+  | cons ph rest ih => intro s; simp [fetched, ih]
+
+/-- **Read data is returned exactly `read_latency` cycles after the READ** (every trace, every configuration): the
+`rddata_valid` / `rddata` the model shows in cycle `t + read_latency` are the read strobe and the memory word the commands
+of cycle `t` fetched - nothing is lost, duplicated or reordered in the latency pipeline. -/
+theorem read_latency_exact (c : Cfg) (s : State) (hs : s.rpipe.length = c.readLatency) (tr : List (List Phase)) (t : Nat)
+    (ht : t + c.readLatency < tr.length) :
+    (outs c s tr).getD (t + c.readLatency) (false, 0) = (fetched c s tr).getD t (false, 0) := by
+  rw [outs_eq_pipe]
+  exact pipe_delay _ _ _ _ hs t (by rw [fetched_length]; exact ht)
+
+end latency
 
 /-! ### non-vacuity -/
 example : ((5 * 2 ^ 6) ||| 43) >>> 3 = 5 * 2 ^ 3 + 43 / 8 := by decide
